@@ -13,12 +13,61 @@ def fields(line):
     return dict(f.split("=", 1) for f in line.split(" ") if "=" in f)
 
 
+def guard_table_check(ctx):
+    """extract the guard sites of the six drivers from the current sources and let Coq compare them
+    with the lists of Tls/GuardSites.v; nothing is decided in Python."""
+    import os, re, sys
+    sys.path.insert(0, os.path.join(core.ROOT, "tools"))
+    import guard_sites
+    gen = os.path.join(core.COQ, "Gen"); os.makedirs(gen, exist_ok=True)
+    tname = "GuardSitesTable_%d" % os.getpid(); cname = "C09chk_%d" % os.getpid()
+    try:
+        tab = guard_sites.table(core.REPO, core.BUILD)
+    except Exception as e:
+        ctx.violation("guards:extractor", "tools/guard_sites.py failed on the current tree: %r" % (e,), {"kind": "table", "error": repr(e)}, False)
+        return
+    core.coq_make(["Tls/GuardSitesProofs.vo"])
+    guard_sites.emit(tab, os.path.join(gen, tname + ".v"))
+    fns = [fn for _, fn in guard_sites.DRIVERS]
+    with open(os.path.join(gen, cname + ".v"), "w") as f:
+        f.write("From Coq Require Import String List.\nFrom GmVerif Require Import Tls.GuardSites Tls.GuardSitesProofs.\nImport ListNotations.\nLocal Open Scope string_scope.\n")
+        f.write("Set Printing Width 1000000.\nSet Printing Depth 1000000.\n")
+        f.write('Load "Gen/%s".\n' % tname)
+        f.write("Definition all_diff : list string := %s.\n" % " ++ ".join('guard_diff "%s" sites_%s %s_guards' % (fn, fn, fn) for fn in fns))
+        f.write("Eval vm_compute in all_diff.\n")
+        f.write("Theorem C09_source_guards_match_model : all_diff = [].\nProof. vm_compute. reflexivity. Qed.\nPrint Assumptions C09_source_guards_match_model.\n")
+    rc, out = core.sh(["coqc", "-Q", ".", "GmVerif", "-w", "-all", os.path.join("Gen", cname + ".v")], cwd=core.COQ, timeout=900)
+    for n in (tname, cname):
+        for ext in (".v", ".vo", ".vok", ".vos", ".glob"):
+            try: os.remove(os.path.join(gen, n + ext))
+            except OSError: pass
+        try: os.remove(os.path.join(gen, "." + n + ".aux"))
+        except OSError: pass
+    ctx.cov["obligations"] += 1
+    nrows = sum(len(tab.get(fn, [])) for fn in fns)
+    ctx.cov["guard_sites"] = {fn: ["%d %s %s %s [%s]" % (r["line"], r["kind"], r["callee"], r["test"], " & ".join(r["ctx"])) for r in tab.get(fn, [])] for fn in fns}
+    m = re.search(r"^\s*= \[(.*?)\]\s*\n\s*: list string", out, re.M | re.S)
+    msgs = re.findall(r'"((?:[^"]|"")*)"', m.group(1)) if m else []
+    if rc == 0 and "Closed under the global context" in out and not msgs:
+        ctx.cov["discharged"] += 1
+        ctx.cov.setdefault("theorems", []).append({"name": "C09_source_guards_match_model (generated, %d rows)" % nrows, "assumptions": []})
+        ctx.cell("guards:all-six-drivers-match")
+        return
+    if not msgs:
+        msgs = ["coqc failed: " + out[-400:].replace("\n", " ")]
+    for msg in msgs:
+        fn = msg.split(":", 1)[0]
+        ctx.violation("guards:" + fn, "the guards of the driver in the current source differ from the list the proof assumes: " + msg,
+                      {"kind": "table", "relation": "guard_diff sites_%s %s_guards = []" % (fn, fn), "detail": msg}, False)
+
+
 def run(ctx):
     ctx.check_proofs()
     exe, log = core.build_harness("C09", "asan", extra=WRAP)
     if exe is None:
         core.harness_build_failed(ctx, log)
         return finish(ctx)
+    guard_table_check(ctx)
     seeds = [21 + ctx.seed % 1000, 22 + ctx.seed % 1000] if ctx.tier == "quick" else [21 + ctx.seed % 1000 + i for i in range(8)]
     cases = []
     for p in PROTOS:
